@@ -337,6 +337,38 @@ func runC20(r *Run, replay *Case) {
 			r.Add(c20ModelCase(s, map[string]string{t: "<x-" + strings.ReplaceAll(t, "_", "-") + " :data-c=\"content\">{{ level }}</x-" + strings.ReplaceAll(t, "_", "-") + ">"}))
 		}
 	}
+	// site configuration in the content filesystem (theme.yml, data/*.yml — vuego loads both as initial data) defining the very names the
+	// default templates read: what a document renders to is decided by the document alone
+	cfgKeys := []string{"content", "id", "code", "title", "href", "align", "label", "ordered", "level", "language", "checked", "rows", "headers", "start", "src", "alt", "cell", "row"}
+	var yml strings.Builder
+	for _, k := range cfgKeys {
+		fmt.Fprintf(&yml, "%s: CFG-%s\n", k, k)
+	}
+	cfgDocs := []string{c20AllKinds, "[text](http://x/)  ![alt](i.png) <http://auto.example>", "```\nno language\n```\n\n    indented\n", "- a\n- b\n\n1. x\n2. y\n\n- [ ] t\n- [x] d\n", "# h\n\n> q\n\n| a | b |\n|---|:-:|\n| 1 | 2 |\n\n---\n", "*e* **s** ~~d~~ `c` line  \nbreak"}
+	for i := 0; i < 60; i++ {
+		cfgDocs = append(cfgDocs, g.doc())
+	}
+	for _, d := range cfgDocs {
+		for _, where := range []string{"theme.yml", "data/site.yml"} {
+			var plain, conf bytes.Buffer
+			e1 := markdown.New(nil).RenderBytes(&plain, []byte(d))
+			e2 := markdown.New(fstest.MapFS{where: &fstest.MapFile{Data: []byte(yml.String())}}).RenderBytes(&conf, []byte(d))
+			c := &Case{Name: "site configuration next to the document", Input: map[string]any{"src": d, "config": where}, Impl: conf.String(), Oracle: &Verdict{OK: true}, Key: "cfg:" + where + d, Tags: []string{"stream:config"}}
+			if (e1 == nil) != (e2 == nil) || plain.String() != conf.String() {
+				at := 0
+				a, b := plain.String(), conf.String()
+				for at < len(a) && at < len(b) && a[at] == b[at] {
+					at++
+				}
+				lo := at - 60
+				if lo < 0 {
+					lo = 0
+				}
+				c.Oracle = &Verdict{OK: false, Class: "config-leaks-into-document:" + where, Detail: fmt.Sprintf("source %q: with %s defining the templates' variable names the output differs at byte %d: …%q vs …%q (%v/%v)", d, where, at, clip(a[lo:], 160), clip(b[lo:], 160), e1, e2)}
+			}
+			r.Add(c)
+		}
+	}
 	c20HeadingIDs(r)
 	// never fails: arbitrary byte strings
 	m := 500
@@ -427,4 +459,11 @@ func runC20(r *Run, replay *Case) {
 		}
 		check(names)
 	}
+}
+
+func clip(s string, n int) string {
+	if len(s) > n {
+		return s[:n]
+	}
+	return s
 }
